@@ -20,7 +20,7 @@ def slippage_guard(P, pr):
     return out[0]
 
 
-def run(ctx):
+def _run(ctx):
     P = ctx.P
     r1 = ctx.inst("C15.R1", "provide handler calls the guard with (caller's tolerance, declared deposits, reserves net of native deposits), error propagated, before any mint", floor=3)
     r2 = ctx.inst("C15.R2", "a tolerance above 1 is rejected before anything else in the guard", floor=1)
@@ -200,3 +200,9 @@ def run(ctx):
         g1.fail("C15.G1:directions", g.path, g.span, "the two comparisons cover directions %s, expected both 0/1 and 1/0" % sorted(seen_dirs))
     ctx.extra.setdefault("terms", {})["slippage"] = ["%s = floor(%s)  <- %s" % (a, b.show(), o) for a, b, o in T.floors.items]
     ctx.assumptions.append("strict sides of the statement follow from eps < 1 (DESIGN §7.3); tolerance has at most 18 fractional digits (cosmwasm Decimal)")
+
+
+def run(ctx):
+    from .. import numeric
+    _run(ctx)
+    numeric.arith_base(ctx, "C15.B1")
